@@ -15,6 +15,7 @@
 import ast
 import base64
 import datetime
+import dis
 import hashlib
 import inspect
 import json
@@ -225,6 +226,14 @@ def list_dotted_names(fn: Callable) -> Set[str]:
             local_vars = set()  # type: Set[str]
             local_vars.update(code_obj.co_varnames)
             local_vars.update(code_obj.co_cellvars)
+            # A name can be a local and a global of the same function: the variable of a
+            # comprehension is a local of the enclosing function (comprehensions are inlined
+            # since Python 3.12) while the name is still read as a global outside of it.
+            local_vars.difference_update(
+                instruction.argval
+                for instruction in dis.get_instructions(code_obj)
+                if instruction.opname in ("LOAD_GLOBAL", "LOAD_NAME")
+            )
             result.difference_update(local_vars)
             # Also remove anything that dereferences a local variable
             to_remove = {
